@@ -1051,7 +1051,13 @@ class Gen:
             ns = [n for n in ks if rng.chance(0.6)]
             if rng.chance(0.06):
                 ns.append(rng.pick(NAMES))
-            self.add(f"restrict {s} {','.join(dict.fromkeys(ns)) or '-'}")
+            ns = list(dict.fromkeys(ns))
+            if ns and rng.chance(0.3):
+                # the same name given several times (possibly as many items as the grammar has elements)
+                reps = max(1, len(ks) - len(ns)) if rng.chance(0.6) else rng.pick([1, 2])
+                ns = ns + [rng.pick(ns) for _ in range(reps)]
+                rng.shuffle(ns)
+            self.add(f"restrict {s} {','.join(ns) or '-'}")
             self.keys[s] = [n for n in ks if n in ns]
         elif op == "rename":
             cur = self.existing(s)
